@@ -39,7 +39,7 @@ func (c *Ctx) calleeContract(g *FnGen, com *ssa.CallCommon) (*FuncContract, *cal
 		}
 	} else {
 		// call of a function value: contract attached to its named func type
-		t := com.Value.Type()
+		t := types.Unalias(com.Value.Type())
 		ct.sig = t.Underlying().(*types.Signature)
 		if n, ok := t.(*types.Named); ok {
 			ct.key = qualName(n) + ".(functype)"
@@ -191,10 +191,8 @@ func (g *FnGen) applyContract(s *State, fc *FuncContract, ct *callTarget, args [
 		s.next = n
 	}
 	heapSorts, ghosts := map[string]bool{}, map[string]bool{}
-	var pats []*locPat
-	for _, m := range fc.Modifies {
-		p := env.evalLoc(m.E)
-		pats = append(pats, p)
+	pats := g.evalPats(env, fc.Modifies)
+	for _, p := range pats {
 		if p.ghost != "" {
 			ghosts[p.ghost] = true
 		} else {
@@ -213,7 +211,12 @@ func (g *FnGen) applyContract(s *State, fc *FuncContract, ct *callTarget, args [
 		s.heaps[k] = n
 		fr = append(fr, g.frameAxiomPats(pats, k, old, n, pre.next))
 	}
+	var gl []string
 	for name := range ghosts {
+		gl = append(gl, name)
+	}
+	sort.Strings(gl)
+	for _, name := range gl {
 		gd := g.c.ghosts[name]
 		s.ghosts[name] = g.fresh("G_"+name+"_c", g.c.specSort(gd.Sort, nil).sort)
 	}
@@ -230,6 +233,9 @@ func (g *FnGen) applyContract(s *State, fc *FuncContract, ct *callTarget, args [
 		r := outs[0].term
 		if outs[0].ty.sort == "Slice" {
 			r = app("s-arr", r)
+		}
+		if outs[0].ty.sort == "Iface" {
+			r = app("i-val", r)
 		}
 		g.assume(s, and(app(">=", app("rid", r), pre.next), app("<", app("rid", r), s.next)))
 	}
@@ -464,14 +470,30 @@ func (g *FnGen) execAppend(s *State, com *ssa.CallCommon, res ssa.Value) {
 	inplace := g.fresh("inplace", "Bool")
 	g.defs = append(g.defs, eq(inplace, app("<=", newLen, app("s-cap", a))))
 	pre := s.clone()
-	// in-place branch
-	s1 := s.clone()
-	g.copyElems(s1, pre, app("s-arr", a), app("+", app("s-off", a), app("s-len", a)), app("s-arr", b), app("s-off", b), n, et)
-	// realloc branch
-	s2 := s.clone()
+	// statically known number of appended elements (variadic call: slice of a fresh [k]T array)
+	static := int64(-1)
+	var srcArr string
+	if sl, ok := com.Args[1].(*ssa.Slice); ok && sl.Low == nil && sl.High == nil {
+		if al, ok := sl.X.(*ssa.Alloc); ok {
+			if at, ok := al.Type().(*types.Pointer).Elem().Underlying().(*types.Array); ok && at.Len() <= 4 {
+				static = at.Len()
+				srcArr = g.term(s, al)
+			}
+		}
+	}
+	s1, s2 := s.clone(), s.clone()
 	nr := g.allocRef(s2, "append")
 	g.copyElems(s2, pre, nr, "0", app("s-arr", a), app("s-off", a), app("s-len", a), et)
-	g.copyElems(s2, pre, nr, app("s-len", a), app("s-arr", b), app("s-off", b), n, et)
+	if static >= 0 {
+		for i := int64(0); i < static; i++ {
+			v := g.bind("apv", g.c.reg.sortOf(et), g.load(pre, refSub(srcArr, intLit(i)), et))
+			g.storeTo(s1, refSub(app("s-arr", a), app("+", app("s-off", a), app("s-len", a), intLit(i))), et, v)
+			g.storeTo(s2, refSub(nr, app("+", app("s-len", a), intLit(i))), et, v)
+		}
+	} else {
+		g.copyElems(s1, pre, app("s-arr", a), app("+", app("s-off", a), app("s-len", a)), app("s-arr", b), app("s-off", b), n, et)
+		g.copyElems(s2, pre, nr, app("s-len", a), app("s-arr", b), app("s-off", b), n, et)
+	}
 	ncap := g.fresh("acap", "Int")
 	g.assume(s, app(">=", ncap, newLen))
 	sorts := map[string]bool{}
